@@ -37,7 +37,7 @@ vx_dispatch(Cmd, _) :- var(Cmd), !, vx_rec_term('X', instantiation).
 vx_dispatch(g(G), VNs) :- !, vx_solve(G, VNs, 64).
 vx_dispatch(g(G, Cap), VNs) :- !, vx_solve(G, VNs, Cap).
 vx_dispatch(multi(Gs), VNs) :- !, vx_multi(Gs, VNs).
-vx_dispatch(quiet(G), _) :- !, ( catch(G, E, (vx_rec_term('X', E))) -> true ; vx_rec_atom('E', failed) ).
+vx_dispatch(quiet(G), _) :- !, ( catch(G, E, (vx_rec_term('X', E), Thrown = true)) -> ( Thrown == true -> true ; vx_rec_atom('E', done) ) ; vx_rec_atom('E', failed) ).
 vx_dispatch(G, VNs) :- vx_solve(G, VNs, 64).
 
 % multi([G1,G2,...]): each goal solved independently (no bindings shared).
